@@ -79,7 +79,7 @@ def gen_ops(rng, ref_len, L):
         if k < 0.30:
             ops.append(("read", rng.choice([0, 1, 2, 7, 100, 4096, 8191, 8192, 8193, 20000, rng.randint(0, 9000)])))
         elif k < 0.36:
-            ops.append(("read", rng.choice([-1, None])))
+            ops.append(("read", rng.choice([-1, None, "None"])))      # read(-1), read(), read(None): all mean "to the end"
         elif k < 0.48:
             ops.append(("readinto", rng.choice([0, 1, 100, 8192, 8193, 30000])))
         elif k < 0.58:
@@ -181,8 +181,8 @@ def run_case(case, ctx):
                     _LB.arm(200000 + 60 * len(data))
                     _CB.arm(CPU_PER_OP)
                     if op[0] == "read":
-                        got = f.read() if op[1] is None else f.read(op[1])
-                        exp = ref.read(op[1])
+                        got = f.read() if op[1] is None else (f.read(None) if op[1] == "None" else f.read(op[1]))
+                        exp = ref.read(None if op[1] == "None" else op[1])
                     elif op[0] == "readinto":
                         b1, b2 = bytearray(op[1]), bytearray(op[1])
                         got = (f.readinto(b1), bytes(b1))
